@@ -114,6 +114,15 @@ def global_state():
     out['etree:register_namespace'] = W.func_digest(ET.register_namespace) if isinstance(ET.register_namespace, types.FunctionType) else 'builtin'
     out['numpy:printoptions'] = W._h(sorted((k, repr(v)) for k, v in numpy.get_printoptions().items()))
     out['numpy:geterr'] = W._h(sorted(numpy.geterr().items()))
+    import decimal
+    import locale
+    import warnings
+    out['warnings:filters'] = W._h([W.scrub(repr(f)) for f in warnings.filters])
+    out['locale'] = W._h(locale.setlocale(locale.LC_ALL))
+    dc = decimal.getcontext()
+    out['decimal:context'] = W._h(dc.prec, dc.rounding, dc.Emin, dc.Emax, sorted(str(k) for k, v in dc.traps.items() if v))
+    out['os:environ'] = W._h(sorted(os.environ.items()))
+    out['sys:switchinterval-untouched'] = 'n/a'
     out['os:cwd'] = os.getcwd()
     out['sys:recursionlimit'] = str(sys.getrecursionlimit())
     return out
@@ -229,6 +238,7 @@ def gated_error_class(st, basename):
 # the caller's ignore lists: one list object per mask, handed to every document of the process
 # that is loaded with that mask (a user's IGNORE constant); it must come back unchanged
 CALLER_MASKS = {}
+HELPERS = {}
 
 
 def caller_mask(names):
@@ -251,6 +261,8 @@ class DocState(object):
 
 def exc_obs(e):
     msg = W.scrub(str(e))
+    if isinstance(e, RecursionError):
+        msg = ''        # where exactly the limit is hit words the message differently
     for d in TEMP_DIRS:
         msg = msg.replace(d, '<dir>')
     return ['raised', type(e).__name__, msg[:300]]
@@ -352,6 +364,22 @@ def do_edit(doc, k, a):
         il.addInput(0, 'VERTEX', '#geom%d-pos' % (a % 2))
         g.primitives.append(g.createTriangleSet(numpy.array([0, 1, 2], dtype=numpy.int32), il, 'sym0'))
         doc.geometries.append(g)
+    elif k == 'add_primitive':
+        # a primitive added to a LOADED geometry through its <vertices> id, with helper objects the
+        # user keeps around and reuses for every document of the process (one InputList per layout)
+        for g in doc.geometries:
+            vid = next((i for i, v in g.sourceById.items() if isinstance(v, dict)), None)
+            if vid is None:
+                continue
+            il = HELPERS.get(('inputlist', vid))
+            if il is None:
+                il = source.InputList()
+                il.addInput(0, 'VERTEX', '#' + vid)
+                HELPERS[('inputlist', vid)] = il
+            n = len(g.sourceById[vid]['POSITION'].data)
+            idx = numpy.array([0, a % n, (a + 1) % n], dtype=numpy.int32)
+            g.primitives.append(g.createTriangleSet(idx, il, 'sym%d' % (a % 2)))
+            break
     elif k == 'effect_color':
         if doc.effects:
             e = doc.effects[a % len(doc.effects)]
@@ -523,62 +551,72 @@ def mode_threads(payload):
 
 
 def mode_gated(payload):
-    """progs[0] is parked at the first I/O point of its step gate_step; while it is parked inside
-    that operation every other program runs from load to end in this thread; module-level state is
-    sampled while the operation is in flight"""
+    """progs[0] (and, with parked=2, then progs[1]) are parked at an I/O point of their step
+    gate_step[i]; while they are parked INSIDE those operations every other program runs from load
+    to end in this thread; then the parked ones are released one after the other in `release` order
+    (each runs to its end before the next is released).  Module-level and interpreter-wide state is
+    sampled while the operations are in flight.  Deterministic: no timing involved."""
     progs = payload['progs']
     states = [DocState(p) for p in progs]
-    A = states[0]
-    gate = Gate()
-    A.gate = gate
-    gate.only = payload.get('gate_where')
-    kA = payload['gate_step']
+    npark = min(payload.get('parked', 1), len(progs))
+    steps_ = payload['gate_step'] if isinstance(payload['gate_step'], list) else [payload['gate_step']]
+    wheres = payload.get('gate_where')
+    wheres = wheres if isinstance(wheres, list) else [wheres]
     g0 = global_state()
     digest = lambda g: W._h(*['%s=%s' % (k, g[k]) for k in sorted(g)])
-    resA = []
+    results = [[] for _ in progs]
     crashes = []
+    gl, gdiff = [], []
+    threads, gates = [], []
 
-    def runA():
+    def sample(when):
+        g = global_state()
+        gl.append([digest(g0), digest(g)])
+        if g != g0 and len(gdiff) < 4:
+            gdiff.append({'when': when, 'changed': global_diff(g0, g)[:8]})
+
+    def runner(i, gate, k_gate):
+        st = states[i]
         try:
-            for k in range(len(A.prog['steps'])):
-                gate.armed = (k == kA)
-                o = run_step(A)
-                resA.append({'digest': obs_digest(o), 'obs': o})
+            for k in range(len(st.prog['steps'])):
+                gate.armed = (k == k_gate)
+                o = run_step(st)
+                results[i].append({'digest': obs_digest(o), 'obs': o})
             gate.armed = False
         except Exception as e:  # noqa
-            crashes.append([0, type(e).__name__, W.scrub(str(e))[:200]])
-    t = threading.Thread(target=runA)
-    t.start()
-    while not gate.entered.is_set() and t.is_alive():
-        gate.entered.wait(0.02)
-    parked = gate.entered.is_set()
-    gl = [[digest(g0), digest(global_state())]]
-    gdiff = []
-    during = global_state()
-    if during != g0:
-        gdiff.append({'when': 'document 0 parked in %s of step %d' % (gate.where, kA), 'changed': global_diff(g0, during)[:8]})
-    others = []
-    for i, st in enumerate(states[1:], 1):
-        rs = []
+            crashes.append([i, type(e).__name__, W.scrub(str(e))[:200]])
+    for i in range(npark):
+        gate = Gate()
+        gate.only = wheres[i % len(wheres)]
+        states[i].gate = gate
+        t = threading.Thread(target=runner, args=(i, gate, steps_[i % len(steps_)]))
+        t.start()
+        while not gate.entered.is_set() and t.is_alive():
+            gate.entered.wait(0.02)
+        threads.append(t)
+        gates.append(gate)
+        sample('document %d parked in %s' % (i, gate.where))
+    for i in range(npark, len(progs)):
+        st = states[i]
         for _ in st.prog['steps']:
             o = run_step(st)
-            rs.append({'digest': obs_digest(o), 'obs': o})
-            gl.append([digest(g0), digest(global_state())])
-        others.append(rs)
-    gate.release.set()
-    t.join(300)
-    gend = global_state()
-    gl.append([digest(g0), digest(gend)])
-    if gend != g0 and not gdiff:
-        gdiff.append({'when': 'end', 'changed': global_diff(g0, gend)[:8]})
-    return {'results': [resA] + others, 'parked': parked, 'where': gate.where, 'globals': gl, 'global_changes': gdiff,
+            results[i].append({'digest': obs_digest(o), 'obs': o})
+        sample('document %d handled while %d parked' % (i, npark))
+    order = list(range(npark))
+    if payload.get('release') == 'lifo':
+        order.reverse()
+    for i in order:
+        gates[i].release.set()
+        threads[i].join(300)
+        sample('document %d released and finished' % i)
+    return {'results': results, 'parked': any(g.entered.is_set() for g in gates), 'where': gates[0].where,
+            'wheres': [g.where for g in gates], 'globals': gl, 'global_changes': gdiff,
             'shared': sharing(states)[:10], 'crashes': crashes}
 
 
 def main():
     payload = json.load(sys.stdin)
     W.freeze_clock()
-    sys.setrecursionlimit(12000)     # deeply nested documents; the same in every mode
     threading.stack_size(64 * 1024 * 1024)
     preload()
     mode = payload['mode']
